@@ -14,21 +14,55 @@ From LCC Require Import Model.Loader Proofs.LoaderP Proofs.LoaderOrderP Proofs.L
 (* For ALL layouts (any nesting of directories, modules with or without SUITE / companion directory, classes, nested classes,
    single-class collapse, hidden / visible_if / disabled / parametrized symbols, shadowed attributes, any explicit ranks, any
    starting value of the rank counter) in which the names within one directory are distinct: whenever the (fixed) loader
-   returns a tree, the tests in it -- with the names of their enclosing suites, their name, description, disabled flag, tags
-   and parameters -- are EXACTLY the visible tests the source tree declares: each exactly once (equality of multisets),
-   nothing else.  [declared_dir [] root] is evaluated on the source tree itself. *)
+   returns a tree, the tests in it -- with the names AND tags / properties / links of their enclosing suites (the path, a list of
+   [pnode]), their name, description, disabled flag, tags, properties, links and parameters ([obs_of] = path and [tinfo] of a
+   loaded test) -- are EXACTLY the visible tests the source tree declares: each exactly once (equality of multisets), nothing
+   else.  [declared_dir [] root] is evaluated on the source tree itself; a declared test carries ([mk_info]) the tags of its @lcc.tags decorator, the properties [declared_props] of its
+   @lcc.prop decorators, the links [declared_links] of its @lcc.link decorators and its disabled flag; a parametrized test
+   declares one test per parameter set, each with the tags, properties and links of the symbol. *)
 Theorem C13_exact : forall (rank0 : nat) (root : dir) (suites : list lsuite),
   names_ok root -> load true rank0 root = Ok suites ->
   Permutation (map obs_of (flat_all [] suites)) (declared_dir [] root).
 Proof. exact load_exact_source. Qed.
 Print Assumptions C13_exact.
 
-(* the same below a module, for every module (no hypothesis on names) and every prefix path *)
+(* the same below a module, for every module (no hypothesis on names) and every prefix path; the suite the module is loaded
+   as has the name and the tags / properties / links ([ls_node]) the module declares ([merged_node]: those of its SUITE dict,
+   or of its only class when the module collapses into it) *)
 Theorem C13_exact_module : forall (m : mdecl) (s : lsuite), load_module m = Ok s ->
   (forall p, Permutation (map obs_of (flat_all p (filter nh [s]))) (declared_module p m)) /\
-  ls_name s = merged_name m /\ ls_hidden s = mod_hidden m.
+  ls_node s = merged_node m /\ ls_hidden s = mod_hidden m.
 Proof. exact load_module_exact. Qed.
 Print Assumptions C13_exact_module.
+
+(* what "declared metadata" is.  (1) every test loaded from a test symbol -- the test itself or each of its parameter sets --
+   carries the tags, the properties, the links and the disabled flag of the symbol. *)
+Theorem C13_test_metadata : forall (rank : nat) (d : tdecl) (t : ltest), In t (expand_test rank d) ->
+  lt_tags t = t_tags d /\ lt_props t = declared_props (t_props d) /\ lt_links t = declared_links (t_links d) /\
+  lt_disabled t = t_disabled d /\ lt_rank t = rank.
+Proof. exact expand_test_metadata. Qed.
+Print Assumptions C13_test_metadata.
+
+(* (2) the properties declared by a stack of @lcc.prop decorators (listed top to bottom): one entry per key, the value is the
+   one of the topmost decorator of that key ([dict_get] = first match), the keys are those of the decorators; the links
+   declared by @lcc.link decorators are all of them (with repetitions), bottom-up. *)
+Theorem C13_properties_meaning : forall (calls : list (str * str)) (k : str),
+  dict_get k (declared_props calls) = dict_get k calls /\ NoDup (keys (declared_props calls)) /\
+  (In k (keys (declared_props calls)) <-> In k (map fst calls)).
+Proof. intros. split; [apply declared_props_get|split; [apply declared_props_NoDup|apply declared_props_keys]]. Qed.
+Print Assumptions C13_properties_meaning.
+
+(* (3) suites: a class suite carries the tags / properties / links of its decorators; a module suite those of its SUITE dict
+   ("properties": one entry per key of the literal, value written last; "links": a bare "url" stands for ("url", None)),
+   or, when it collapses into its single class, those of that class; a module without SUITE has none. *)
+Theorem C13_suite_metadata :
+  (forall (rank : nat) (c : cdecl) (body : list item) (r : list lsuite), load_class (IClass rank c body) = Ok r ->
+     exists s, r = [s] /\ ls_name s = class_name c /\ ls_meta s = declared_class_meta c) /\
+  (forall (m : mdecl) (s : lsuite), load_module m = Ok s -> collapses m = false -> ls_meta s = declared_mod_meta m) /\
+  (forall (m : mdecl) (s : lsuite), load_module m = Ok s -> collapses m = true ->
+     exists rank c body, visible_classes (m_items m) = [IClass rank c body] /\ ls_meta s = declared_class_meta c).
+Proof. split; [exact load_class_meta|split; [exact load_module_meta|exact load_module_meta_collapsed]]. Qed.
+Print Assumptions C13_suite_metadata.
 
 (* hidden items are omitted: everything loaded is declared, and what is hidden declares nothing -- a hidden test, a hidden
    class (with everything in it), a hidden module, and the companion directory of a hidden module; no hidden suite is ever
@@ -50,12 +84,12 @@ Print Assumptions C13_hidden_omitted.
 (* F16: before the fix the statement is false: foo.py hidden by SUITE visible_if, foo/bar.py declares test u:
    the loader returns suite foo > bar > u although the tree declares nothing *)
 Definition t_plain (a : str) : item :=
-  ITest 0 {| t_attr := a; t_name := None; t_desc := None; t_cond := None; t_disabled := false; t_tags := []; t_params := None |}.
+  ITest 0 {| t_attr := a; t_name := None; t_desc := None; t_cond := None; t_disabled := false; t_tags := []; t_props := []; t_links := []; t_params := None |}.
 Definition f16_tree : dir :=
-  Dir [] [{| m_file := [102; 111; 111]%N; m_suite := Some {| s_name := None; s_desc := None; s_rank := None; s_cond := Some false; s_tags := [] |};
+  Dir [] [{| m_file := [102; 111; 111]%N; m_suite := Some {| s_name := None; s_desc := None; s_rank := None; s_cond := Some false; s_tags := []; s_props := []; s_links := [] |};
              m_rank := 0; m_items := [t_plain [116%N]] |}]
          [Dir [102; 111; 111]%N [{| m_file := [98; 97; 114]%N; m_suite := None; m_rank := 0; m_items := [t_plain [117%N]] |}] []].
-Theorem C13_hidden_omitted_refuted : exists (root : dir) (suites : list lsuite) (path : list str) (t : ltest),
+Theorem C13_hidden_omitted_refuted : exists (root : dir) (suites : list lsuite) (path : list pnode) (t : ltest),
   names_ok root /\ load false 1 root = Ok suites /\ In (path, t) (flat_all [] suites) /\
   declared_dir [] root = [] /\ load true 1 root = Ok [].
 Proof.
@@ -103,26 +137,35 @@ Print Assumptions C13_order_tests.
 (* ---- non-vacuity: a layout with a companion directory, a single-class collapse, a nested class, a hidden test, a
    parametrized test with default naming and an explicit rank: the hypotheses of C13_exact hold and five tests are loaded *)
 Definition c_ (a : str) (rk : option nat) (body : list item) : item :=
-  IClass 0 {| c_attr := a; c_name := None; c_desc := None; c_rank := rk; c_cond := None; c_disabled := false; c_tags := [] |} body.
+  IClass 0 {| c_attr := a; c_name := None; c_desc := None; c_rank := rk; c_cond := None; c_disabled := false; c_tags := []; c_props := []; c_links := [] |} body.
 Definition t_hidden (a : str) : item :=
-  ITest 0 {| t_attr := a; t_name := None; t_desc := None; t_cond := Some false; t_disabled := false; t_tags := []; t_params := None |}.
+  ITest 0 {| t_attr := a; t_name := None; t_desc := None; t_cond := Some false; t_disabled := false; t_tags := []; t_props := []; t_links := []; t_params := None |}.
 Definition t_param (a : str) (vals : list nat) : item :=
   ITest 0 {| t_attr := a; t_name := None; t_desc := None; t_cond := None; t_disabled := true; t_tags := [[120%N]];
+             t_props := [([107%N], [49%N]); ([106%N], [50%N]); ([107%N], [51%N])];      (* @lcc.prop("k","1") @lcc.prop("j","2") @lcc.prop("k","3") *)
+             t_links := [([117%N], None); ([118%N], Some [110%N])];                     (* @lcc.link("u") @lcc.link("v","n") *)
              t_params := Some (vals, NDefault) |}.
 Definition witness_tree : dir :=
   Dir [] [ {| m_file := [98%N]; m_suite := None; m_rank := 0;
               m_items := [c_ [98%N] None [t_plain [122%N]; t_hidden [104%N]; c_ [110%N] (Some 0) [t_param [112%N] [7; 9]]]] |};
-           {| m_file := [97%N]; m_suite := Some {| s_name := None; s_desc := None; s_rank := None; s_cond := None; s_tags := [] |};
+           {| m_file := [97%N]; m_suite := Some {| s_name := None; s_desc := None; s_rank := None; s_cond := None; s_tags := [];
+                                      s_props := [([112%N], [49%N]); ([112%N], [50%N])]; s_links := [LStr [117%N]; LPair [118%N] (Some [110%N])] |};
               m_rank := 0; m_items := [t_plain [116%N]] |} ]
          [Dir [98%N] [{| m_file := [99%N]; m_suite := None; m_rank := 0; m_items := [t_plain [117%N]] |}] []].
 Example C13_witness :
   names_ok witness_tree /\
   exists suites, load true 1 witness_tree = Ok suites /\
-    map (fun pt => (fst pt, lt_name (snd pt))) (flat_all [] suites) =
+    map (fun pt => (map fst (fst pt), lt_name (snd pt))) (flat_all [] suites) =
       [([[97%N]], [116%N]); ([[98%N]], [122%N]); ([[98%N]; [110%N]], [112; 95; 49]%N); ([[98%N]; [110%N]], [112; 95; 50]%N);
-       ([[98%N]; [99%N]], [117%N])].
+       ([[98%N]; [99%N]], [117%N])] /\
+    (* both parameter sets of p carry {"k": "1", "j": "2"} (keys bottom-up, value of the topmost decorator) and the links
+       [("v", "n"), ("u", None)]; the module suite a carries {"p": "2"} and [("u", None), ("v", "n")] *)
+    map (fun pt => (lt_props (snd pt), lt_links (snd pt))) (filter (fun pt => match lt_param (snd pt) with Some _ => true | None => false end) (flat_all [] suites)) =
+      [([([107%N], [49%N]); ([106%N], [50%N])], [([118%N], Some [110%N]); ([117%N], None)]);
+       ([([107%N], [49%N]); ([106%N], [50%N])], [([118%N], Some [110%N]); ([117%N], None)])] /\
+    map ls_meta suites = [ {| md_tags := []; md_props := [([112%N], [50%N])]; md_links := [([117%N], None); ([118%N], Some [110%N])] |}; no_meta ].
 Proof.
   split.
   - repeat (constructor; simpl; try tauto; try (intros [H|H]; [discriminate|tauto])).
-  - eexists. split; vm_compute; reflexivity.
+  - eexists. split; [|split; [|split]]; vm_compute; reflexivity.
 Qed.
